@@ -5,7 +5,7 @@ usage: tools_matrix.py [ids...]   (default: all)"""
 import json, os, re, subprocess, sys, tempfile, shutil, glob
 ENV = dict(os.environ, GOFLAGS="-mod=mod", GOPROXY="off", GOSUMDB="off", GOTOOLCHAIN="local")
 # which checks to try for a mutant besides its own property
-ALSO = {"C04-m3": ["C01"], "C12-m3": ["C01", "C03"], "C16-m1": ["C04"], "C06-m1": ["C05"], "C15-m3": ["C15", "C18"], "C10-m3": ["C11"], "C01-m1": ["C16", "C03"]}
+ALSO = {"C06-r2m3": ["C15"], "C14-r2m3": ["C05"], "C04-m3": ["C01"], "C12-m3": ["C01", "C03"], "C16-m1": ["C04"], "C06-m1": ["C05"], "C15-m3": ["C15", "C18"], "C10-m3": ["C11"], "C01-m1": ["C16", "C03"]}
 def sh(cmd, cwd=None, env=ENV, timeout=2400):
     try:
         p = subprocess.run(cmd, shell=True, cwd=cwd, env=env, stdout=subprocess.PIPE, stderr=subprocess.STDOUT, timeout=timeout, text=True, errors="replace")
@@ -13,7 +13,7 @@ def sh(cmd, cwd=None, env=ENV, timeout=2400):
     except subprocess.TimeoutExpired as e:
         return 124, "TIMEOUT"
 def main():
-    ids = sys.argv[1:] or sorted(os.path.basename(d.rstrip('/')) for d in glob.glob('/verif/seeded/C*-m*/'))
+    ids = sys.argv[1:] or sorted(os.path.basename(d.rstrip('/')) for d in glob.glob('/verif/seeded/C*-*m*/'))
     rows = []
     for mid in ids:
         d = '/verif/seeded/' + mid
@@ -46,7 +46,10 @@ def main():
         finally:
             sh("git -C /repo worktree remove --force %s" % wt)
             shutil.rmtree(wt, ignore_errors=True)
-    with open('/verif/seeded/MATRIX.md', 'a') as f:
+    full = not sys.argv[1:]
+    with open('/verif/seeded/MATRIX.md', 'w' if full else 'a') as f:
+        if full:
+            f.write("# Seeded changes x checks\n\nWritten by tools_matrix.py: every seeded change is applied to a scratch worktree of /repo (HEAD, i.e. the repaired tree) and the quick tier of its property's check (and of the checks listed in ALSO) is run against it with VERIF_REPO. DETECTED = exit 1 with a natively reproduced counterexample; MISSED = exit 0; INCONCLUSIVE = exit 2.\n\n| seeded change | caught by | detail (quick tier, repaired tree) |\n|---|---|---|\n")
         for r in rows:
             f.write("| %s | %s | %s |\n" % (r[0], r[1], r[2]))
 main()
